@@ -824,7 +824,15 @@ impl<'tcx> Cx<'tcx> {
             ("static", J::Bool(is_static)),
             ("span", self.span(tcx.def_span(did))),
         ];
-        if !is_static && (ty.is_integral() || ty.is_bool()) {
+        let newtype_int = match ty.kind() {
+            ty::Adt(adt, args) if adt.is_struct() && adt.non_enum_variant().fields.len() == 1 => {
+                let f = adt.non_enum_variant().fields.iter().next().unwrap();
+                let fty = tcx.type_of(f.did).instantiate(tcx, args).skip_norm_wip();
+                fty.is_integral()
+            }
+            _ => false,
+        };
+        if !is_static && (ty.is_integral() || ty.is_bool() || newtype_int) {
             if let Ok(val) = tcx.const_eval_poly(did) {
                 if let Some(si) = val.try_to_scalar_int() {
                     let size = si.size();
